@@ -435,34 +435,47 @@ def r6_pass_through(ctx) -> None:
 def r7_subquery_finalisation(ctx) -> None:
     r, prog = ctx.r, ctx.prog
     r.rule("C10.R7", "what is embedded and what is emitted, in both per-rule converters (plain and correlation rules alike): the stored conversion result is the raw query list iff the backend does not finalise sub-queries and the rule is referenced (embed_raw), the finalised list otherwise; the returned queries are always the finalised ones, and they are computed whenever the rule emits output")
+    # both per-rule converters interpreted (sa.tabulate, Proxy) on a stand-in rule with two queries, for every combination of
+    # (backend finalises sub-queries?, rule is referenced?, rule emits output?): what is stored and what is returned
+    from .standins import run_per_rule_converter
     for fn in ("convert_rule", "convert_correlation_rule"):
         f = prog.func(f"{B}.{fn}")
         loc = f.loc
-        emb = [n for n in walk_no_nested(f.node) if isinstance(n, ast.Assign) and unparse(n.targets[0]) == "embed_raw"]
-        if len(emb) == 1 and unparse(emb[0].value) == "not self.finalize_correlation_subqueries and bool(rule._backreferences)":
-            r.ok("C10.R7", f.qual, "embed_raw = not finalize_correlation_subqueries and the rule is referenced", f"{f.module.relpath}:{emb[0].lineno}")
+        wrong = {"stored": [], "returned": [], "computed": []}
+        for fin_sub in (False, True):
+            for referenced in (False, True):
+                for output in (False, True):
+                    o = run_per_rule_converter(ctx, fn, fin_sub, referenced, output)
+                    if o.raised is not None:
+                        wrong["returned"].append(f"(finalises sub-queries={fin_sub}, referenced={referenced}, output={output}): raises {o.raised}")
+                        continue
+                    stored, ret, finalised_calls = o.stored, o.ret, o.finalised_calls
+                    raw = ["fin(c0)", "fin(c1)"]
+                    final = [f"FINAL({q})" for q in raw]
+                    embed_raw = (not fin_sub) and referenced
+                    case = f"(backend finalises sub-queries={fin_sub}, rule referenced={referenced}, emits output={output})"
+                    if stored != [raw if embed_raw else final]:
+                        wrong["stored"].append(f"{case}: stored {stored}, expected {[raw if embed_raw else final]}")
+                    if list(ret or []) != (final if output else []):
+                        wrong["returned"].append(f"{case}: returned {ret}, expected {final if output else []}")
+                    if (output or not embed_raw) and finalised_calls != raw:
+                        wrong["computed"].append(f"{case}: finalize_query called with {finalised_calls}, expected {raw}")
+        if not wrong["stored"]:
+            r.ok("C10.R7", f.qual, "stored result: raw iff the backend does not finalise sub-queries and the rule is referenced (8 interpreted cases)", loc)
         else:
-            r.violation("C10.R7", f.qual, "embed_raw = not self.finalize_correlation_subqueries and bool(rule._backreferences)",
-                        "whether a referenced rule's queries are embedded raw must depend on the backend switch and on being referenced — for plain and for correlation rules alike (a nested correlation that is always finalised is embedded already wrapped by post-processing)", loc)
-            continue
-        ifexps = [n for n in walk_no_nested(f.node) if isinstance(n, ast.IfExp) and "finalize_query" in unparse(n.body)]
-        if len(ifexps) == 1 and unparse(ifexps[0].test) == "not embed_raw or rule._output" and unparse(ifexps[0].orelse) == "[]":
-            r.ok("C10.R7", f.qual, "finalised queries are computed whenever they are stored or emitted", f"{f.module.relpath}:{ifexps[0].lineno}")
+            r.violation("C10.R7", f.qual, f"rule.set_conversion_result(queries if embed_raw else finalized_queries): {wrong['stored'][0]}",
+                        "the stored (embedded) result is not the raw list exactly when embed_raw: whether a referenced rule's queries are embedded raw must depend on the backend switch and on being referenced — for plain and for correlation rules alike (a nested correlation that is always finalised is embedded already wrapped by post-processing)", loc)
+        if not wrong["returned"]:
+            r.ok("C10.R7", f.qual, "returns the finalised queries exactly when the rule emits output", loc)
         else:
-            r.violation("C10.R7", f.qual, "finalized_queries = [...] if not embed_raw or rule._output else []", "finalised queries are not computed for every case in which they are stored or emitted", loc)
-        stores = [c for c in walk_no_nested(f.node) if isinstance(c, ast.Call) and call_name(c) == "rule.set_conversion_result"]
-        if len(stores) == 1 and unparse(stores[0].args[0]) == "queries if embed_raw else finalized_queries":
-            r.ok("C10.R7", f.qual, "stored result: raw iff embed_raw", f"{f.module.relpath}:{stores[0].lineno}")
+            r.violation("C10.R7", f.qual, f"return finalized_queries: {wrong['returned'][0]}", "a rule that emits output (generate: true) returns its raw query: no finalize_query_<format>, no post-processing items (or a rule without output emits queries)", loc)
+        if not wrong["computed"]:
+            r.ok("C10.R7", f.qual, "finalised queries are computed whenever they are stored or emitted", loc)
         else:
-            r.violation("C10.R7", f.qual, "rule.set_conversion_result(queries if embed_raw else finalized_queries)", "the stored (embedded) result is not the raw list exactly when embed_raw", loc)
-        rets = [x for x in walk_no_nested(f.node) if isinstance(x, ast.Return) and x.value is not None and unparse(x.value) in ("finalized_queries", "queries")]
-        if rets and all(unparse(x.value) == "finalized_queries" and ("rule._output", True) in atomic_guards(guards_at(prog, f, x)) for x in rets):
-            r.ok("C10.R7", f.qual, "returns the finalised queries, under rule._output", loc)
-        else:
-            r.violation("C10.R7", f.qual, "return finalized_queries", "a rule that emits output (generate: true) returns its raw query: no finalize_query_<format>, no post-processing items", loc)
+            r.violation("C10.R7", f.qual, f"finalized_queries = [...] if not embed_raw or rule._output else []: {wrong['computed'][0]}", "finalised queries are not computed for every case in which they are stored or emitted", loc)
     a = prog.lookup_class_attr(B, "finalize_correlation_subqueries")
     if a and unparse(a[1].value) == "False":
         r.ok("C10.R7", B, "finalize_correlation_subqueries defaults to False")
     else:
         r.violation("C10.R7", B, "finalize_correlation_subqueries default", "sub-query finalisation must be opt-in")
-    r.floor("C10.R7", 9)
+    r.floor("C10.R7", 7)
